@@ -19,7 +19,9 @@ import (
 
 // ---- message generator (independent of the bundle generator: bodies are built to stress naming and hashing)
 
-var c10Vars = []string{"name", "setName", "labsUrl", "count", "x", "userId", "a", "b", "n", "total"}
+var c10Vars = []string{"name", "setName", "labsUrl", "count", "x", "userId", "a", "b", "n", "total",
+	// runs of underscores, leading and trailing ones, words of one and two letters, capitals in a row, digits inside
+	"first___name", "a__b", "_lead", "trail_", "__x__y1z_", "isAtEnd", "toIdOf", "aBCd", "HTTPServer", "x2y", "UPPER_CASE", "camelCASEMix", "v12b3"}
 
 func c10Expr(r *fw.Rand) ref.Expr {
 	v := c10Vars[r.Intn(len(c10Vars))]
